@@ -351,6 +351,16 @@ def ghost(r, F):
         tab = tables.table(g, c, fl, pops)
         r.require(not extra and tab[:2] == ("no", "no") and tab[2] != "no", upd, "ghost update: pop while weight > capacity", "table (<,=,>) -> pop: %s" % (tab,),
                   "GhostQueue::update must shrink to the new capacity exactly (pop while weight > capacity); found `weight + (%s) ? capacity` -> %s" % (affine.pretty(extra) if extra else "0", tab), ln=c.ln)
+    # termination of the two loops: pop() on an empty queue changes nothing, so the loop may continue only while weight > 0
+    for host in (push, upd):
+        pops = [b.idx for b in host.calls() if F.callee_fn(b.term) is not None and F.callee_fn(b.term).id == pop.id]
+        if not pops:
+            continue      # loop lives in a helper: covered through the overflow test's host below
+        found = tables.find_cmp(host, tables.role_field("weight", G), tables.role_const(0), "comparison of the ghost weight with 0")
+        for c, fl in found:
+            tab = tables.table(host, c, fl, pops)
+            r.require(tab[1] == "no", host, "ghost loop stops on an empty queue", "table (w<0, w=0, w>0) -> pop: %s" % (tab,),
+                      "the ghost queue's shrink loop keeps popping at weight == 0 (an entry heavier than the whole ghost capacity never fits): it never terminates", ln=c.ln)
     cap = [u for u in tables.field_updates(upd, "capacity", G)]
     r.require(len(cap) == 1 and 2 in backslice(upd, cap[0]["stmt"].rv.ops[0], "prov").args, upd, "ghost update stores the new capacity", "capacity := parameter", "GhostQueue::update does not store the new capacity", ln=upd.lo)
     # state moves together
